@@ -64,21 +64,21 @@ def apply():
         with NoTracing():
             route = len(a) == 1 and _has_py_dunder(a[0], "__bytes__")
         if route:
-            return core.invoke_dunder(a[0], "__bytes__")
+            return bl.invoke_dunder(a[0], "__bytes__")
         return _stock_bytes(*a)
 
     def _int(*a, **k):
         with NoTracing():
             route = len(a) == 1 and not k and _has_py_dunder(a[0], "__int__")
         if route:
-            return core.invoke_dunder(a[0], "__int__")
+            return bl.invoke_dunder(a[0], "__int__")
         return _stock_int(*a, **k)
 
     def _float(*a):
         with NoTracing():
             route = len(a) == 1 and _has_py_dunder(a[0], "__float__")
         if route:
-            return core.invoke_dunder(a[0], "__float__")
+            return bl.invoke_dunder(a[0], "__float__")
         return _stock_float(*a)
 
     core._PATCH_REGISTRATIONS[bytes] = _bytes
